@@ -13,6 +13,9 @@ import (
 	"time"
 )
 
+// MaxEvents bounds the size of a trace (safety net against runaway scenarios).
+var MaxEvents = 400000
+
 // Tracer writes one JSON object per line. Seq numbers come from one atomic
 // counter taken inside Emit, so that cross-goroutine order is the order in
 // which the events were recorded (callers emit while holding the lock that
@@ -42,6 +45,15 @@ func NewTracer(path string) (*Tracer, error) {
 func (t *Tracer) Emit(ev map[string]any) {
 	t.mu.Lock()
 	defer t.mu.Unlock()
+	if t.N >= MaxEvents {
+		// a runaway scenario must not fill the disk: the trace ends with a marker and the process stops
+		if t.N == MaxEvents {
+			t.w.WriteString(`{"ev":"trace.truncated","seq":0}` + "\n")
+			t.w.Flush()
+			t.N++
+		}
+		os.Exit(3)
+	}
 	ev["seq"] = t.seq.Add(1)
 	if t.Stamp {
 		ev["us"] = time.Since(t.t0).Microseconds()
